@@ -1,7 +1,16 @@
 ID = 'C18'
-UNITS = {'time': dict(wrap='wrap.cc', new_block=64, per_harness={'h_ftime.c': {'new_block': 192}})}
+UNITS = {'time': dict(wrap='wrap.cc', new_block=64, per_harness={'h_ftime.c': {'new_block': 192}}),
+         # dtx: the text-structure oracle of format_duration (h_durtext.c). Same wrapper TU; -fno-inline keeps std::to_string and
+         # std::string::_M_create functions, which are cut: to_string -> integer token (h_durtext.c), _M_create -> reported bound
+         # failure (sso_bound.c: every std::string <= 15 bytes; the longest correct text with one-byte tokens has 15)
+         'dtx': dict(wrap='wrap.cc', new_block=64, cxxflags=['-fno-inline'], gen_defs=['VERIF_NEW_POOL=8'], ir2c_flags=['--ptrdiff', '--flat-unions'], extra_c=['sso_bound.c'],
+                     cuts=['basic_stringIcSt11char_traitsIcESaIcEE9_M_createERmm$', '^_ZNSt7__cxx119to_stringE[imlyxj]$'])}
 BOUNDS = ('format_duration: all 2^64 microsecond counts (split into the four magnitude classes, symbolic inside each) x precision {any negative, 0..6} '
-          'x both admissible shapes of the seconds text (no exception, formats, pad, result text); integer field recomposition for 1 min <= usecs < 1 day. format_time: all 2^64 timestamps, date text length 19 (and 20, 26 in the thorough tier). '
+          'x both admissible shapes of the seconds text (no exception, formats, pad, result text); integer field recomposition for 1 min <= usecs < 1 day. '
+          'format_duration TEXT oracle (h_durtext.c, judges the returned string only): the same classes x precision {-1 quick / any negative thorough, 0, 6 quick / 0..6 thorough} x both shapes '
+          '(structure, padding, precision, seconds value in [0,60) below one day); field values for 1 min <= usecs < 1 day, field ranges from one day; '
+          'text + field recomposition together in 12 windows of 1-4 s (every usecs of the window symbolic): +-2 s around 1 s, 60 s, 3600 s, 86400 s, 1:01:00, 1d 1:01:00, 5d 1:11:10, and the last 2 s below 2^64, '
+          'x precision {-1, 6} quick / {-1, 0, 1, 3, 6} thorough; exact seconds value below one minute (thorough). Every std::string of that unit <= 15 bytes. format_time: all 2^64 timestamps, date text length 19 (and 20, 26 in the thorough tier). '
           'usecs/timeval: all usecs < 2^63 and all normalised timevals below 2^63 us. format_size: all 2^64 sizes x include_bytes. '
           'parse_size: every NUL-terminated string of length 0..3 (quick) / 0..5 (thorough) over all 256 byte values without a fractional part.')
 STUBS = [
@@ -9,6 +18,16 @@ STUBS = [
     '(d+ for p == 0, else d+ "." d{p}; one integer digit if v < 9, two if v >= 10, either for 9 <= v < 10 because rounding may carry; digits arbitrary); '
     '"%lu:%s" / "%lu:%02lu:%s" / "%lu:%02lu:%02lu:%s": records the integers and the %s argument, returns the token "I" followed by the %s argument; '
     'any other format is an assertion failure. The decimal rendering itself (libc) is not modelled.',
+    'vasprintf (h_durtext.c): generic token-emitting printf model, linked instead of libc in the native replay build too. Parses any format made of literal characters, %%, %c, %s, '
+    '%[-+ 0]*[width|*][.prec|.*][hh|h|l|ll|z|j|t]{u,d,i} and %[-0]*[width|*][.prec|.*][l]{f,F}. An integer conversion emits ONE byte 0xC0|k (a token that cannot collide with digits, ":" or ".") and '
+    'records (magnitude after the length-modifier truncation, negative?, width, minimum digits = precision, else the width if the 0 flag is effective, else 1; sign flag); no decimal digits are generated. '
+    'The floating conversion records (precision, value) and emits ARBITRARY digits of the guaranteed shape (n integer digits, "." and p digits when p > 0; n = the cell\'s NINT, tied to the value as in '
+    'h_duration.c unless SHAPE_TIED=0; width padding if the format asks for it). Any other conversion: assertion failure "UNMODELLED printf conversion". Bounds (reported): text < 40 bytes, '
+    '<= 8 integer and <= 3 floating conversions per call of format_duration, float precision <= 8, %s argument < 24 bytes.',
+    'std::to_string(int|unsigned|long|unsigned long|long long|unsigned long long) (h_durtext.c, unit dtx, generated-C modes only; not reached by today\'s format_duration): cut and replaced by the same '
+    'one-byte integer token (width 0, one digit minimum). The native real build runs libstdc++\'s; the oracle reads a run of literal digits as an integer field too.',
+    'std::string::_M_create (unit dtx, sso_bound.c): cut; reaching it is a reported bound failure (every std::string of the unit stays within the 15-byte small-string buffer; the longest correct '
+    'format_duration text with one-byte tokens is T:T:T:0d.dddddd = 15 bytes).',
     'vasprintf (h_fsize.c): records format, integer and double argument of the format_size formats, returns the token "S"',
     'gmtime_r (h_ftime.c): records the time_t, fills struct tm with arbitrary values; strftime: records buffer, size, format, tm; writes SLEN arbitrary '
     'non-NUL bytes + NUL and returns SLEN (the real format needs 19 characters for years 1000..9999, at most 26 for any int year); snprintf: records '
@@ -21,11 +40,17 @@ OUTSIDE = [
     'and the microsecond field is t % 10^6 printed with ".%06u"',
     'parse_size with digits after a decimal point (double accumulation of 0.1^k factors and the double -> size_t conversion); strings longer than 5 bytes',
     'format_time_natural, now() (local time zone / clock)',
+    'format_duration text oracle (h_durtext.c): an implementation that does string surgery on the rendered INTEGER text (e.g. pads by looking at its length) is judged on one-byte tokens; the seconds '
+    'must come from ONE floating conversion (an all-integer rendering of seconds and fraction would be rejected); a restructured formatter whose CONTROL FLOW depends on the remainders '
+    '(seeded C18-r2m3: the days branch recurses on usecs - days*86400e6) is decided only in the window cells (dtxw_*: 4-150 s each under load) - on the whole-class days cells it gives no verdict '
+    'in 900 s (eight 64-bit dividers; minisat, cadical, kissat); a value outside [0,60) handed to the floating conversion can leave a cell of the other shape without any path (reported VACUOUS = inconclusive, '
+    'the field/value cells report the violation); a result longer than 15 bytes is a reported bound failure',
     'format_duration field arithmetic in the days class (usecs >= 86400 s): that days/hours/minutes recompose to the input needs '
     'floor(floor(x/a)/b) == floor(x/(ab)) across three 64-bit relational dividers; no verdict in 300-900 s with minisat, kissat, z3, cvc5 and cvc5 '
-    '--solve-bv-as-int (also not for sub-ranges [2^48,2^52) and [2^60,2^64), nor for the days field alone); decided for the minutes and hours classes',
+    '--solve-bv-as-int (also not for sub-ranges [2^48,2^52) and [2^60,2^64), nor for the days field alone; also not when usecs is built from symbolic days, hours, minutes, rest: 900 s minisat, 600 s kissat / cvc5); '
+    'decided for the minutes and hours classes, for the field RANGES of the days class (dtx_ranges_m3) and completely inside the four days-class windows of h_durtext.c',
     'exactness of the double handed to "%.*lf" for durations >= 1 min ((double)usecs_part / 10^6 after the integer field subtraction): no verdict in 400-900 s '
-    '(cvc5 FP); decided below one minute in the thorough tier (500 s)',
+    '(cvc5 FP; also not inside a 2 s window: minisat 900 s); decided below one minute in the thorough tier (dur_value_m0 500 s, dtx_value_m0 120 s)',
     'format_duration precisions above 6 (int8_t allows up to 127; the property quantifies -1..6)',
 ]
 ASSUMPTIONS = [
@@ -34,6 +59,22 @@ ASSUMPTIONS = [
     'x86-64 glibc: PRIu64 is "lu", struct tm starts with nine ints, time_t and suseconds_t are 64-bit',
 ]
 
+RECURSION = '_ZN5phosg15format_durationB5cxx11Ema:2'  # a format_duration that calls itself is followed two levels deep (deeper = reported unwinding failure)
+PRECS_DTX_QUICK = (-1, 0, 6)
+PRECS_WIN_QUICK = (-1, 6)
+PRECS_WIN_THOROUGH = (-1, 0, 1, 3, 6)
+S_ = 1000000
+# (tag, magnitude class, first usecs, last usecs, integer digits of the seconds text in the window)
+DTX_WINDOWS = [
+    ('s1_lo', 0, 0, 1 * S_ - 1, 1), ('s1_hi', 0, 1 * S_, 3 * S_, 1),
+    ('min_lo', 0, 58 * S_, 60 * S_ - 1, 2), ('min_hi', 1, 60 * S_, 62 * S_, 1),
+    ('hour_lo', 1, 3598 * S_, 3600 * S_ - 1, 2), ('hour_hi', 2, 3600 * S_, 3602 * S_, 1),
+    ('day_lo', 2, 86398 * S_, 86400 * S_ - 1, 2), ('day_hi', 3, 86400 * S_, 86402 * S_, 1),
+    ('h1m1', 2, 3660 * S_, 3662 * S_, 1),                       # 1:01:0x   every inner field one digit
+    ('d1h1m1', 3, 90060 * S_, 90062 * S_, 1),                   # 1:01:01:0x
+    ('d5h1', 3, 436270 * S_, 436274 * S_, 2),                   # 5:01:11:1x  (TimeTest's 5:11:11:12 minus ten hours)
+    ('top', 3, 2 ** 64 - 2 * S_, 2 ** 64 - 1, 2),               # 213503982:08:01:4x, the last two seconds of the 2^64 range
+]
 PRECS_QUICK = (-1, 0, 1, 6)
 PRECS_ALL = (-1, 0, 1, 2, 3, 4, 5, 6)
 MAGN = {0: '< 1 min', 1: '1 min .. 1 h', 2: '1 h .. 1 day', 3: '>= 1 day'}
@@ -60,6 +101,44 @@ def queries(tier):
                   desc='format_duration, usecs %s, precision %s, seconds text with %d integer digit(s): no exception; formats per magnitude class; '
                        'precision default; "0" pad iff one integer digit; result == integer text + seconds text' % (MAGN[mag], 'any negative' if p < 0 else p, nint),
                   bounds='all usecs of the class%s' % ('' if mag == 3 else ' whose seconds value admits that shape'))
+    # ---- format_duration, text-structure oracle (h_durtext.c, unit dtx): judges the returned string only ---------------------------
+    def dtx(name, defs, timeout=300, **kw):
+        q(name, 'h_durtext.c', defs, 26, timeout, unit='dtx', unwindset=RECURSION, **kw)
+
+    for mag in (0, 1, 2, 3):
+        for p in (PRECS_ALL if thorough else PRECS_DTX_QUICK):
+            for nint in (1, 2):
+                pn = 'neg' if p < 0 else str(p)
+                defs = {'MAG': mag, 'PREC': p, 'NINT': nint, 'CHECK': 0}
+                if p < 0 and thorough:
+                    defs['PNEG_ANY'] = 1  # every negative precision (symbolic); the quick tier takes -1
+                if mag == 3:
+                    defs['SHAPE_TIED'] = 0  # the value passes three 64-bit divisions: shape left arbitrary for every value (stronger claim), value range not asserted
+                dtx('dtx_m%d_p%s_n%d' % (mag, pn, nint), defs, tv=(p < 0),
+                    desc='format_duration text, usecs %s, precision %s, seconds text with %d integer digit(s): no exception; [D:][H:][M:]S with one integer field per unit of the '
+                         'magnitude class; leading field unpadded, inner integer fields zero-padded to two digits; seconds = the text of one floating conversion with a two-digit '
+                         'integer part when inner; precision requested or default%s' % (MAGN[mag], ('any negative' if thorough else -1) if p < 0 else p, nint, '' if mag == 3 else '; seconds value in [0,60)'),
+                    bounds='all usecs of the class%s' % ('' if mag == 3 else ' whose seconds value admits that shape'))
+    for mag in (1, 2):
+        dtx('dtx_fields_m%d' % mag, {'MAG': mag, 'PREC': 1, 'NINT': 2, 'CHECK': 1}, 900, cost=1000, tv=False,
+            desc='format_duration text (usecs %s): the integer fields read back from the text satisfy hours < 24, minutes < 60, leading field >= 1, usecs - (hours, minutes) in [0, 60 s)' % MAGN[mag],
+            bounds='all usecs of the class')
+    dtx('dtx_ranges_m3', {'MAG': 3, 'PREC': 1, 'NINT': 2, 'CHECK': 3}, 900, cost=1000, tv=False,
+        desc='format_duration text (usecs >= 1 day): days field in [1, 2^64/86400e6], hours field < 24, minutes field < 60', bounds='all usecs of the class')
+    # windows: +-2 s around every unit boundary (the property's quantifier) and places where every inner field is one digit / two digits / the top of the range.
+    # With the high bits of usecs fixed the divisions are easy: text AND field recomposition are decided together, also in the days class, and also for an
+    # implementation whose control flow depends on the remainders (a restructured formatter), which the whole-class cells cannot decide.
+    for tag, mag, lo, hi, nint in DTX_WINDOWS:
+        for p in (PRECS_WIN_THOROUGH if thorough else PRECS_WIN_QUICK):
+            pn = 'neg' if p < 0 else str(p)
+            dtx('dtxw_%s_p%s' % (tag, pn), {'MAG': mag, 'PREC': p, 'NINT': nint, 'CHECK': 6, 'USECS_LO': '%dULL' % lo, 'USECS_HI': '%dULL' % hi}, tv=False,
+                desc='format_duration text + integer field values for %d <= usecs <= %d, precision %s (seconds text with %d integer digit(s)): structure, padding, precision, '
+                     'seconds value in [0,60), hours < 24, minutes < 60, fields recompose to usecs' % (lo, hi, p, nint),
+                bounds='all usecs of the window')
+    if thorough:
+        dtx('dtx_value_m0', {'MAG': 0, 'PREC': 1, 'NINT': 2, 'CHECK': 2, 'SHAPE_TIED': 0}, 1500, flags=['--cvc5', '--slice-formula'], cost=2000, tv=False,
+            desc='format_duration text (usecs < 1 min): the value handed to the floating conversion whose text is returned is exactly (double)usecs / 1000000; SMT back end cvc5',
+            bounds='all usecs < 60 s')
     for mag in (1, 2):
         q('dur_fields_m%d' % mag, 'h_duration.c', {'MAG': mag, 'PREC': 1, 'NINT': 2, 'CHECK': 1}, 26, 900, cost=1000,
           desc='format_duration integer fields (usecs %s): hours < 24, minutes < 60, leading field >= 1, usecs - (hours,minutes) in [0, 60 s)' % MAGN[mag],
